@@ -381,7 +381,7 @@ class Program:
         if route == "reader":
             mfa = ProgramMFA.from_data_reader(definition, MemReader(self.dimobj, self.prm0))
         else:
-            self.tmp = tempfile.mkdtemp(prefix="flodym-verif-life-")
+            self.tmp = tlcrun.reused_scratch("flodym-verif-life-")
             df, pf = self.write_files(excel=(route == "excel"))
             mfa = (ProgramMFA.from_excel if route == "excel" else ProgramMFA.from_csv)(definition, dimension_files=df, parameter_files=pf)
         mfa._model = self.model
@@ -420,7 +420,8 @@ class Program:
 
     def ev(self, **kw):
         base = {"op": "", "id": 0, "pos": 0, "val": [0, 1], "tol": "", "raise": False, "outcome": "", "failing": [], "exc": [], "flagged": [],
-                "kind": "", "inout": False, "procs": [], "flows": [], "stocks": [], "sys": {}, "route": ""}
+                "kind": "", "inout": False, "procs": [], "flows": [], "stocks": [], "sys": {}, "route": "",
+                "slice": [], "exclp": [], "exclf": [], "split": [], "nodes": [], "links": [], "newflat": [], "intra": "", "sub": "", "col": "", "lines": []}
         base.update(kw)
         base["state"] = self.state()
         self.events.append(base)
@@ -562,11 +563,19 @@ class Program:
         a = np.asarray(values, dtype=float)
         return [{"lab": [i + 1 for i in idx], "v": frac(a[idx])} for idx in np.ndindex(*a.shape)] if len(dims) == a.ndim else []
 
+    def back(self, df, dims):
+        """the exported frame read back with from_df into an array over the exported dimension letters (C19's read-back clause)"""
+        try:
+            a = flodym.FlodymArray.from_df(dims=DimensionSet(dim_list=[self.dimobj[l] for l in dims]), df=df.copy())
+            return {"dims": list(a.dims.letters), "flat": [frac(x) for x in np.asarray(a.values, dtype=float).ravel(order="C")]}
+        except Exception as e:
+            return {"dims": ["?" + type(e).__name__], "flat": []}
+
     def rows_df(self, df, dims):
         if not isinstance(df, pd.DataFrame):
             return []
         d = df.reset_index() if not isinstance(df.index, pd.RangeIndex) or df.index.name else df
-        name2letter = {NAMES[l]: l for l in NAMES}
+        name2letter = {n: l for l, n in getattr(self, "dimnames", NAMES).items()}
         cols = {name2letter.get(str(c), str(c)): c for c in d.columns}
         rows = []
         for _, r in d.iterrows():
@@ -584,7 +593,7 @@ class Program:
             if kind in ("numpy", "pandas", "pickle"):
                 if kind == "pickle":
                     if self.tmp is None:
-                        self.tmp = tempfile.mkdtemp(prefix="flodym-verif-life-")
+                        self.tmp = tlcrun.reused_scratch("flodym-verif-life-")
                     path = os.path.join(self.tmp, "mfa.pickle")
                     data_writer.export_mfa_to_pickle(mfa, path)
                     import pickle
@@ -594,13 +603,15 @@ class Program:
                     d = data_writer.convert_to_dict(mfa, type=kind)
                 rows = self.rows_df if kind == "pandas" else self.rows_numpy
                 flows = [{"name": n, "dims": list(d["flow_dimensions"][n]), "from": d["flow_processes"][n][0], "to": d["flow_processes"][n][1],
-                          "rows": rows(v, list(d["flow_dimensions"][n]))} for n, v in d["flows"].items()]
+                          "rows": rows(v, list(d["flow_dimensions"][n])),
+                          "back": self.back(v, list(d["flow_dimensions"][n])) if kind == "pandas" else {"dims": [], "flat": []}}
+                         for n, v in d["flows"].items()]
                 stocks = [{"name": n, "dims": list(d["stock_dimensions"][n]), "proc": d["stock_processes"].get(n, "") or "",
                            "rows": rows(v, list(d["stock_dimensions"][n])), "inrows": [], "outrows": []} for n, v in d["stocks"].items()]
                 procs = list(d["processes"])
             else:
                 if self.tmp is None:
-                    self.tmp = tempfile.mkdtemp(prefix="flodym-verif-life-")
+                    self.tmp = tlcrun.reused_scratch("flodym-verif-life-")
                 inout = rnd.random() < 0.6
                 dname = os.path.join(self.tmp, "csv")           # the same directory at every export of this history
                 data_writer.export_mfa_flows_to_csv(mfa, dname)
@@ -612,8 +623,13 @@ class Program:
                 def read(fn, dims):
                     path = os.path.join(dname, fn)
                     return self.rows_df(pd.read_csv(path), dims) if os.path.exists(path) else []
+
+                def readback(fn, dims):
+                    path = os.path.join(dname, fn)
+                    return self.back(pd.read_csv(path), dims) if os.path.exists(path) else {"dims": ["?missing"], "flat": []}
                 flows = [{"name": f["name"], "dims": list(f["dims"]), "from": m["procs"][f["from"] - 1], "to": m["procs"][f["to"] - 1],
-                          "rows": read(sane(f["name"]) + ".csv", f["dims"])} for f in m["flows"]]
+                          "rows": read(sane(f["name"]) + ".csv", f["dims"]), "back": readback(sane(f["name"]) + ".csv", f["dims"])}
+                         for f in m["flows"]]
                 stocks = [{"name": s["name"], "dims": list(s["dims"]), "proc": m["procs"][s["proc"] - 1] if s["proc"] else "",
                            "rows": read(sane(s["name"]) + "_stock.csv", s["dims"]),
                            "inrows": read(sane(s["name"]) + "_inflow.csv", s["dims"]) if inout else [],
@@ -640,6 +656,139 @@ class Program:
                 shutil.rmtree(self.tmp, ignore_errors=True)
         return self.result()
 
+    def do_import_param(self):
+        """new values for one parameter arrive as a table (random layout); faulty tables must be refused and change nothing"""
+        rnd = self.rnd
+        k = rnd.randrange(len(self.model["params"]))
+        p = self.model["params"][k]
+        arr = self.mfa.parameters[p["name"]]
+        shape = self.shape(p["dims"])
+        new = np.array([rnd.choice([0, 1, 2, 3, 4, 5, 0.5, 2.5]) for _ in range(int(np.prod(shape)))], dtype=float).reshape(shape)
+        hdr = rnd.choice(["name", "letter", "mixed"])
+        cols = {l: (getattr(self, "dimnames", NAMES)[l] if hdr == "name" or (hdr == "mixed" and i % 2) else l) for i, l in enumerate(p["dims"])}
+        rows = [dict({cols[l]: self.items[l][i] for l, i in zip(p["dims"], idx)}, value=float(new[idx])) for idx in np.ndindex(*shape)]
+        rnd.shuffle(rows)
+        fault = rnd.choice(["none", "none", "none", "dup", "drop", "drop_allowed", "unknown"])
+        kw = {}
+        flat = [frac(x) for x in new.ravel(order="C")]
+        if fault == "dup":
+            rows.append(dict(rows[0]))
+        elif fault in ("drop", "drop_allowed") and len(rows) > 1:
+            gone = rows.pop()
+            if fault == "drop_allowed":
+                kw["allow_missing_values"] = True
+                idx = tuple(self.items[l].index(gone[cols[l]]) for l in p["dims"])
+                new[idx] = 0.0
+                flat = [frac(x) for x in new.ravel(order="C")]
+        elif fault == "unknown":
+            bad = dict(rows[0])
+            bad[cols[p["dims"][0]]] = 1234 if p["dims"][0] == "t" else "no such item"
+            rows.append(bad)
+        if fault in ("drop", "drop_allowed") and len(rows) == int(np.prod(shape)):
+            fault = "none"          # (a one-entry parameter: nothing was dropped)
+        df = pd.DataFrame(rows)
+        df = df[rnd.sample(list(df.columns), len(df.columns))]          # columns in any order
+        if len(p["dims"]) >= 2 and fault == "none" and rnd.random() < 0.4:
+            wide = rnd.choice(p["dims"])
+            df = df.pivot(index=[cols[l] for l in p["dims"] if l != wide], columns=cols[wide], values="value").reset_index()
+            df.columns.name = None
+        elif rnd.random() < 0.4:
+            df = df.set_index([cols[l] for l in p["dims"]])
+        expect_refusal = fault in ("dup", "drop", "unknown")
+        try:
+            arr.set_values_from_df(df, **kw)
+            outcome = "ok"
+        except Exception as e:
+            outcome = f"raised {type(e).__name__}"
+        self.ev(op="import_param", id=k + 1, outcome=outcome, kind="faulty" if expect_refusal else "valid")
+        self.events[-1]["newflat"] = flat
+
+    def do_lines(self):
+        """a line plot (plotly) of one flow of the live system: one line per (subplot item, line item) along a chosen dimension"""
+        from flodym.export.array_plotter import PlotlyArrayPlotter
+        rnd, m = self.rnd, self.model
+        cand = [k for k, f in enumerate(m["flows"]) if 1 <= len(f["dims"]) <= 3]
+        if not cand or self.has_nan():
+            return
+        k = rnd.choice(cand)
+        f = m["flows"][k]
+        arr = self.mfa.flows[f["name"]]
+        ds = list(f["dims"])
+        roles = rnd.sample(ds, len(ds))
+        intra = roles[0]
+        col = roles[1] if len(roles) > 1 else ""
+        sub = roles[2] if len(roles) > 2 else ""
+        if len(roles) == 2 and rnd.random() < 0.5:
+            col, sub = "", roles[1]
+        byname = rnd.random() < 0.5
+        ref = (lambda l: getattr(self, "dimnames", NAMES)[l] if byname else l)
+        kw = dict(array=arr, intra_line_dim=ref(intra))
+        if sub:
+            kw["subplot_dim"] = ref(sub)
+        if col:
+            kw["linecolor_dim"] = ref(col)
+        try:
+            plotter = PlotlyArrayPlotter(**kw)
+            fig = plotter.plot()
+            axis_to_item = {}
+            if sub:
+                nx = plotter.nx
+                ann = [a.text for a in fig.layout.annotations]
+                for i, text in enumerate(ann):
+                    row, colm = i // nx + 1, i % nx + 1
+                    xa = fig.get_subplot(row, colm).xaxis.plotly_name.replace("axis", "")
+                    item_txt = str(text).split("=", 1)[1] if "=" in str(text) else str(text)
+                    axis_to_item[xa] = max([j + 1 for j, it in enumerate(self.items[sub]) if str(it) == item_txt] + [0])
+            lines = []
+            for tr in fig.data:
+                s_ = axis_to_item.get(tr.xaxis or "x", 0) if sub else 0
+                c_ = max([j + 1 for j, it in enumerate(self.items[col]) if str(it) == str(tr.name)] + [0]) if col else 0
+                xs = [self.label(intra, x) for x in tr.x]
+                lines.append({"s": s_, "c": c_, "x": xs, "y": [frac(y) for y in tr.y]})
+            self.ev(op="lines", id=k + 1, outcome="ok", kind=f"{intra}/{sub}/{col}")
+            self.events[-1].update({"intra": intra, "sub": sub, "col": col, "lines": lines})
+        except Exception as e:
+            self.ev(op="lines", id=k + 1, outcome=f"raised {type(e).__name__}: {str(e)[:80]}", kind=f"{intra}/{sub}/{col}")
+            self.events[-1].update({"intra": intra, "sub": sub, "col": col, "lines": []})
+
+    def do_sankey(self):
+        """the Sankey diagram of the live system: random slice, exclusions and at most one flow split by one of its unsliced dimensions"""
+        if self.has_nan():
+            return
+        from flodym.export.sankey import PlotlySankeyPlotter
+        rnd, m = self.rnd, self.model
+        canon = self.U["canon"]
+        sl = [[l, rnd.choice(self.U["items"][l])] for l in rnd.sample(canon, rnd.choice([0, 0, 1, 1, 2]))]
+        exclp = rnd.choice([["sysenv"], ["sysenv"], [], ["sysenv"] + rnd.sample(m["procs"][1:], min(1, len(m["procs"]) - 1))])
+        exclf = rnd.sample([f["name"] for f in m["flows"]], rnd.choice([0, 0, 1]))
+        split = []
+        cand = [(f["name"], l) for f in m["flows"] for l in f["dims"] if l not in [x[0] for x in sl]]
+        if cand and rnd.random() < 0.5:
+            split = [list(rnd.choice(cand))]
+        colors = {"default": "gray"}
+        for fname, l in split:
+            colors[fname] = (getattr(self, "dimnames", NAMES)[l], ["red", "green", "blue", "black", "orange"] * 8)
+        kw = dict(mfa=self.mfa, slice_dict={l: self.items[l][i - 1] for l, i in sl}, exclude_flows=list(exclf), flow_color_dict=colors)
+        if exclp != ["sysenv"] or rnd.random() < 0.5:
+            kw["exclude_processes"] = list(exclp)           # (["sysenv"] is also the default)
+        try:
+            fig = PlotlySankeyPlotter(**kw).plot()
+            sk = fig.data[0]
+            nodes = [str(x) for x in sk.node.label]
+            names = {f["name"] for f in m["flows"]}
+            links = []
+            for s_, t_, lab, v in zip(sk.link.source, sk.link.target, sk.link.label, sk.link.value):
+                src = nodes[s_] if 0 <= s_ < len(nodes) else f"?{s_}"
+                tgt = nodes[t_] if 0 <= t_ < len(nodes) else f"?{t_}"
+                if lab in names:
+                    links.append({"src": src, "tgt": tgt, "kind": "flow", "name": str(lab), "item": 0, "v": frac(v)})
+                else:
+                    it = max([self.label(l, lab) for _, l in split] + [0])
+                    links.append({"src": src, "tgt": tgt, "kind": "item", "name": "", "item": it, "v": frac(v)})
+            self.ev(op="sankey", outcome="ok", slice=sl, exclp=exclp, exclf=exclf, split=split, nodes=nodes, links=links)
+        except Exception as e:
+            self.ev(op="sankey", outcome=f"raised {type(e).__name__}: {str(e)[:80]}", slice=sl, exclp=exclp, exclf=exclf, split=split, nodes=[], links=[])
+
     def history(self, nsteps):
         if True:
             rnd = self.rnd
@@ -652,14 +801,20 @@ class Program:
                     self.do_compute()
                 elif r < 0.38:
                     self.do_set_param()
+                elif r < 0.42:
+                    self.do_import_param()
                 elif r < 0.46:
                     self.do_set_life()
                 elif r < 0.56:
                     self.do_edit_flow()
                 elif r < 0.72:
                     self.do_check_mb()
-                elif r < 0.82:
+                elif r < 0.80:
                     self.do_check_flows()
+                elif r < 0.86:
+                    self.do_sankey()
+                elif r < 0.90:
+                    self.do_lines()
                 else:
                     self.do_export()
             self.do_compute()
@@ -671,6 +826,101 @@ class Program:
         return {"grid": self.grid, "model": dict(self.model, params=strip),
                 "init": {"prm": [[frac(x) for x in self.prm0[p["name"]].ravel(order="C")] for p in self.model["params"]], "life8": self.life8},
                 "events": self.events}
+
+
+# ---------------------------------------------------------------------------------------------------------------------------
+# The library's OWN example system (flodym.example_objects.ExampleMFA, the system of example 2 and of the export how-to) as a fixed
+# instance of the specification: its compute() is transcribed below as program DATA; the real object runs the library's own
+# compute().  Parameter values are replaced by dyadic ones (the example's 0.92 etc. are not exact in binary).
+EXAMPLE_UNIVERSE = {"canon": ["t", "e"], "items": {"t": list(range(1, 32)), "e": [1, 2, 3]}}
+
+
+def _example_model():
+    P = lambda i: {"op": "p", "id": i}
+    F = lambda i: {"op": "f", "id": i}
+    mul = lambda a, b: {"op": "mul", "a": a, "b": b}
+    one_minus = lambda a: {"op": "rsub", "k": [1, 1], "a": a}
+    procs = ["sysenv", "shredder", "demolition", "remelting", "landfills", "slag piles"]
+    params = [{"name": n, "dims": d} for n, d in (("eol machines", ["t"]), ("eol buildings", ["t"]), ("composition eol machines", ["e"]),
+                                                  ("composition eol buildings", ["e"]), ("shredder yield", ["e"]), ("demolition yield", ["e"]),
+                                                  ("remelting yield", ["e"]))]
+    fl = [(1, 2), (1, 3), (2, 4), (2, 1), (3, 4), (3, 5), (4, 6), (4, 1)]
+    flows = [{"name": f"{procs[a - 1]} => {procs[b - 1]}", "from": a, "to": b, "dims": ["t", "e"]} for a, b in fl]
+    scrap = {"op": "add", "a": F(3), "b": F(5)}
+    prog = [{"op": "flow", "id": 1, "e": mul(P(1), P(3))}, {"op": "flow", "id": 2, "e": mul(P(2), P(4))},
+            {"op": "flow", "id": 3, "e": mul(F(1), P(5))}, {"op": "flow", "id": 4, "e": mul(F(1), one_minus(P(5)))},
+            {"op": "flow", "id": 5, "e": mul(F(2), P(6))}, {"op": "flow", "id": 6, "e": mul(F(2), one_minus(P(6)))},
+            {"op": "flow", "id": 8, "e": mul(scrap, P(7))}, {"op": "flow", "id": 7, "e": mul(scrap, one_minus(P(7)))},
+            {"op": "sin", "id": 1, "e": F(6)}, {"op": "scompute", "id": 1},
+            # (the example books "shredder => remelting" - not "remelting => slag piles" - into the slag piles: transcribed as it is)
+            {"op": "sin", "id": 2, "e": F(3)}, {"op": "scompute", "id": 2}]
+    stocks = [{"name": "landfills", "proc": 5, "dims": ["t", "e"], "kind": "simple", "setting": "middle"},
+              {"name": "slag piles", "proc": 6, "dims": ["t", "e"], "kind": "simple", "setting": "middle"}]
+    return {"procs": procs, "params": params, "flows": flows, "stocks": stocks, "prog": prog}
+
+
+class ExampleProgram(Program):
+    def __init__(self, seed):
+        self.rnd = random.Random(seed)
+        self.U = EXAMPLE_UNIVERSE
+        self.n = 31
+        self.grid = list(range(1980, 2011))
+        self.items = {"t": list(self.grid), "e": ["Fe", "Cu", "Mn"]}
+        self.events = []
+        self.tmp = None
+        self.conserving = False
+
+    def gen_model(self):
+        rnd = self.rnd
+        self.model = _example_model()
+        self.prm0 = {}
+        for p in self.model["params"]:
+            n = int(np.prod(self.shape(p["dims"])))
+            if p["dims"] == ["t"]:
+                vals = [rnd.randint(1, 40) for _ in range(n)]
+            elif "composition" in p["name"]:
+                vals = [0.5, 0.25, 0.25]
+            else:
+                vals = [rnd.choice([0, 0.25, 0.5, 0.75, 1]) for _ in range(n)]
+            self.prm0[p["name"]] = np.array(vals, dtype=float).reshape(self.shape(p["dims"]))
+        self.life8 = [8, 8]
+
+    def build(self):
+        from flodym.example_objects import get_example_mfa
+        mfa = get_example_mfa()
+        for name, v in self.prm0.items():
+            mfa.parameters[name].values[...] = v
+        self.dimobj = {l: mfa.dims[l] for l in ("t", "e")}
+        self.dimnames = {l: mfa.dims[l].name for l in ("t", "e")}
+        mfa._model, mfa._items = self.model, self.items
+        self.mfa, self.route = mfa, "example"
+        sysj = {"procs": [[p.name, p.id] for p in mfa.processes.values()],
+                "flows": [{"name": f.name, "from": f.from_process.name, "to": f.to_process.name, "dims": list(f.dims.letters)} for f in mfa.flows.values()],
+                "stocks": [{"name": s.name, "proc": s.process.name if s.process is not None else "", "dims": list(s.dims.letters), "kind": "simple"}
+                           for s in mfa.stocks.values()],
+                "params": [{"name": n, "dims": list(p.dims.letters)} for n, p in mfa.parameters.items()]}
+        self.ev(op="build", sys=sysj, route="example")
+
+    def do_set_life(self):
+        return
+
+    def do_check_mb(self):
+        # (process names with blanks: parse the report by the known names)
+        rnd = self.rnd
+        nan = self.has_nan()
+        form = rnd.choice(["half", "zero", "zero_f"] if nan else ["half", "default", "default", "zero", "zero_f"])
+        tol_arg = {"half": 0.5, "default": None, "zero": 0, "zero_f": 0.0}[form]
+        raise_error = rnd.random() < 0.5
+        raised, msgs = self.logged(lambda: self.mfa.check_mass_balance(tolerance=tol_arg, raise_error=raise_error))
+        text = raised if raised is not None else " ".join(msgs)
+        failing = [p for p in self.model["procs"] if f"{p} (max error" in (text or "")]
+        self.ev(op="check_mb", tol="half" if form == "half" else "strict", outcome="fail" if (raised is not None or msgs) else "ok", failing=failing)
+        self.events[-1]["raise"] = raise_error
+
+
+def record_example_batch(ntraces, nsteps, seed):
+    logging.disable(logging.CRITICAL)
+    return {"universe": EXAMPLE_UNIVERSE, "traces": [ExampleProgram(seed * 7919 + k).run(nsteps) for k in range(ntraces)]}
 
 
 def record_batch(uid, ntraces, nsteps, seed):
